@@ -12,7 +12,7 @@ import itertools
 import math
 import struct
 import time
-from datetime import datetime, timezone
+from datetime import datetime, timedelta, timezone
 from unittest import mock
 
 
@@ -177,6 +177,34 @@ def calculators_do_not_touch_their_arguments():
     return None
 
 
+def aggregator_initial_working_set():
+    """A new SendOnUpdate aggregator covers the batteries that are BOTH reported working and known to its calculator -
+    from its very first aggregate on, not only after the next status change."""
+    from frequenz.sdk.timeseries.battery_pool import _methods
+    from frequenz.sdk.timeseries.battery_pool._metric_calculator import CapacityCalculator
+
+    async def never():
+        await asyncio.Event().wait()
+
+    async def build(working, known):
+        with mock.patch.object(_methods, "_get_battery_inverter_mappings", lambda *a, **k: {"bat_invs": {b: frozenset() for b in known}}), \
+                mock.patch.object(_methods, "run_forever", lambda fn: never()):
+            agg = _methods.SendOnUpdate(working_batteries=set(working), metric_calculator=CapacityCalculator(frozenset(known)),
+                                        min_update_interval=timedelta(seconds=1))
+            got = set(agg._working_batteries)  # pylint: disable=protected-access
+            for t in (agg._update_task, agg._send_task):  # pylint: disable=protected-access
+                t.cancel()
+            await asyncio.sleep(0)
+            return got
+
+    for working, known in (({9}, {9, 19}), ({9, 19, 29}, {9, 19}), (set(), {9, 19}), ({9, 19}, {9, 19})):
+        got = asyncio.run(build(working, known))
+        if got != set(working) & set(known):
+            return (f"a new aggregator for batteries {sorted(known)} created while {sorted(working)} are reported working starts with "
+                    f"the working set {sorted(got)}; only {sorted(set(working) & set(known))} are both working and its own")
+    return None
+
+
 def run(req):
     t0 = time.time()
     cases = list(itertools.product(nan_variants().items(), ["soc", "soc_lower_bound", "soc_upper_bound", "capacity"]))
@@ -203,6 +231,14 @@ def run(req):
     if not failure:
         n_extra += 1
         try:
+            f = aggregator_initial_working_set()
+        except Exception as e:  # pylint: disable=broad-except
+            f = f"scenario raised {type(e).__name__}: {e}"
+        if f:
+            failure = (f, {"scenario": "initial working set of a new aggregator"})
+    if not failure:
+        n_extra += 1
+        try:
             f = calculators_do_not_touch_their_arguments()
         except Exception as e:  # pylint: disable=broad-except
             f = f"scenario raised {type(e).__name__}: {e}"
@@ -221,7 +257,8 @@ def run(req):
            "exhaustive": False,
            "rule": "5 ways of producing a NaN x 4 battery metrics, one battery with the NaN next to a healthy one; 2 sets of "
                    "non-integer readings through the real battery / inverter fetchers (handed on unchanged); the calculators "
-                   "leave the working set and the metrics mapping they are handed untouched; seeded random "
+                   "leave the working set and the metrics mapping they are handed untouched; a new aggregator starts from "
+                   "(reported working) AND (its calculator's batteries); seeded random "
                    "fleets of 1-4 batteries with non-integer capacities and limits, full / empty / mixed: pool SoC within "
                    "[0, 100] in floats; all distinct"}
     if failure:
